@@ -21,6 +21,10 @@
 (*   "alwaysbump" SeekToRow increments even when it flushed a pending seek       *)
 (*   "norelease" the reader's seek branch forgets Release(page)                  *)
 (*   "nodrain"   Close does not drain the read channel                           *)
+(*   "sendfirst" SeekToRow first tries a non-blocking send and only when the     *)
+(*               channel is full drains it (blocking receive) and sends again:   *)
+(*               the reader can take the pending seek in between, and the drain  *)
+(*               then waits forever (the seeded change C15-a)                    *)
 EXTENDS Integers, Sequences, FiniteSets, TLC
 
 CONSTANTS NP, MaxOps, Faults, Bug
@@ -30,7 +34,7 @@ VARIABLES
   offer,      \* <<>> or <<[page, err, version]>> : pending send on `read`
   readClosed, seekCh, initOpen, doneOpen,
   \* caller
-  cpc,        \* "idle" | "recv" | "seekSend" | "seekStart" | "close2" | "drain"
+  cpc,        \* "idle" | "recv" | "seekSend" | "seekStart" | "close2" | "drain" | "seekDrain" (mutant sendfirst only)
   version, seekNil, carg, ret, nops,
   \* requirement bookkeeping (what the synchronous reader would return next)
   want, dead, ok,
@@ -101,11 +105,20 @@ CSeekFlush(k) ==
   /\ carg' = k
   /\ IF seekNil THEN /\ ret' = [page |-> -1, err |-> "closedpipe"]
                      /\ UNCHANGED <<seekCh, version, cpc>>
+     ELSE IF Bug = "sendfirst"
+     THEN /\ ret' = NoRet /\ seekCh' = seekCh
+          /\ IF Len(seekCh) = 0 THEN version' = version + 1 /\ cpc' = "seekSend"      \* the send will succeed
+                                ELSE version' = version /\ cpc' = "seekDrain"          \* full: drain first
      ELSE /\ ret' = NoRet /\ cpc' = "seekSend"
           /\ IF Len(seekCh) > 0
              THEN seekCh' = <<>> /\ version' = (IF Bug = "alwaysbump" THEN version + 1 ELSE version)
              ELSE seekCh' = seekCh /\ version' = (IF Bug = "nobump" THEN version ELSE version + 1)
   /\ UNCHANGED <<offer, readClosed, initOpen, doneOpen, seekNil, reqv, rdr, acct>>
+
+CSeekDrain ==                                   \* mutant sendfirst: <-pages.seek, a blocking receive
+  /\ cpc = "seekDrain" /\ Len(seekCh) > 0
+  /\ seekCh' = <<>> /\ cpc' = "seekSend"
+  /\ UNCHANGED <<offer, readClosed, initOpen, doneOpen, version, seekNil, carg, ret, nops, reqv, rdr, acct>>
 
 CSeekSend ==                                    \* pages.seek <- asyncSeek{rowIndex, version}; never blocks: sole sender, just flushed
   /\ cpc = "seekSend" /\ Len(seekCh) = 0
@@ -202,7 +215,7 @@ RClosing ==                                     \* close(read)
 Outcomes == {"none", "eof", "range", "fatal"}
 \* the caller may stop once it has closed; a caller that abandons the reader without Close leaks the goroutine by design
 Terminated == cpc = "idle" /\ seekNil /\ (rpc = "dead" \/ Bug = "nodrain") /\ UNCHANGED vars
-Caller == CReadStart \/ CRecv \/ CRecvClosed \/ CSeekSend \/ CSeekStart \/ CClose1 \/ CClose2 \/ CDrain \/ CDrainEnd
+Caller == CReadStart \/ CRecv \/ CRecvClosed \/ CSeekDrain \/ CSeekSend \/ CSeekStart \/ CClose1 \/ CClose2 \/ CDrain \/ CDrainEnd
             \/ \E k \in 0..NP+1 : CSeekFlush(k)
 Reader == RWaitInit \/ RCheckSeek \/ RLoopFatal \/ RTakeSeek \/ RDone \/ RClosing
             \/ \E o \in Outcomes : RLoopSeek(o) \/ RLoopRead(o)
@@ -211,7 +224,7 @@ Next == Caller \/ Reader \/ Terminated
 Spec == Init /\ [][Next]_vars
 \* Go's select chooses uniformly among the ready cases: the branches that compete with a ready send
 \* (take the seek, observe done) are taken eventually - strong fairness on them
-FairSpec == Spec /\ WF_vars(Reader) /\ WF_vars(CRecv \/ CRecvClosed \/ CDrain \/ CDrainEnd \/ CSeekSend \/ CSeekStart \/ CClose2)
+FairSpec == Spec /\ WF_vars(Reader) /\ WF_vars(CRecv \/ CRecvClosed \/ CDrain \/ CDrainEnd \/ CSeekDrain \/ CSeekSend \/ CSeekStart \/ CClose2)
                  /\ SF_vars(RDone) /\ SF_vars(RTakeSeek)
 WeakSpec == Spec /\ WF_vars(Reader) /\ WF_vars(Caller)
 
@@ -225,4 +238,5 @@ SendNeverBlocks == cpc = "seekSend" => Len(seekCh) = 0           \* the capacity
 ReadReturns == (cpc = "recv") ~> (cpc = "idle")
 CloseReturns == (cpc = "drain") ~> (cpc = "idle")
 ReaderExits == seekNil ~> (rpc = "dead")
+SeekReturns == (cpc \in {"seekDrain", "seekSend", "seekStart"}) ~> (cpc = "idle")
 =============================================================================
